@@ -567,6 +567,33 @@ class BFn(Fn):
                 return
         return Fn.expr_stmt(self, e, blk)
 
+    def if_stmt(self, e, blk):
+        """`named_ifs` (spec): an `if` *statement* at function level becomes a named helper `<fn>_if<k>` over the variables it
+        mentions (captures) and assigns (state) — so that the equality proofs can treat the blocks of a long function one by one"""
+        if not self.f.get("named_ifs") or len(self.scopes) != 1:
+            return Fn.if_stmt(self, e, blk)
+        self.n_if = getattr(self, "n_if", 0) + 1
+        name = "%s_if%d" % (self.lean, self.n_if)
+        state = self.assigned_outer([e.then, e.els] if e.els is not None else [e.then])
+        caps = self.mentioned(e, state)
+        hb = Blk()
+        self.scopes.append({})
+        try:
+            if state:
+                hb.let(self.state_text(state), "st")
+            Fn.if_stmt(self, e, hb)
+            hb.add("pure " + self.state_text(state))
+        finally:
+            self.scopes.pop()
+        sty = self.state_ty(state)
+        head = "def %s%s%s (st : %s) : Res %s := do" % (
+            name, self.abs_decl(), "".join(" (%s : %s)" % (v.lean, v.ty.lean()) for v in caps), paren(sty), paren(sty))
+        self.helpers.append("/-- the %s `if` statement of the function body (state: %s) -/\n%s\n%s" % (
+            {1: "first", 2: "second", 3: "third"}.get(self.n_if, "%d-th" % self.n_if), ", ".join(v.rust for v in state) or "none",
+            head, "\n".join("  " + l for l in hb.lines)))
+        blk.bind(self.state_text(state) if state else "_", "%s%s%s %s" % (
+            name, self.abs_use(), "".join(" " + v.lean for v in caps), self.state_text(state)))
+
     # ---------------------------------------------------------------- loops
     def for_(self, s, blk):
         names = []
@@ -809,7 +836,7 @@ unit(
              header="fn set_boundaries<F: MatchFunc>( &mut self, start: (u32, u32), end: (u32, u32), k: usize, w: usize, "
                     "scoring: &Scoring<F>, )",
              params=[("start", "(u32, u32)"), ("end", "(u32, u32)"), ("k", "usize"), ("w", "usize"), ("scoring", "&Scoring<F>")],
-             let_holes=["lazy_extend"], theorem="RbV.Thm.GenSrcBand.setBoundaries_eq_model"),
+             let_holes=["lazy_extend"], named_ifs=True, theorem="RbV.Thm.GenSrcBand.setBoundaries_eq_model"),
         dict(name="Band::full_matrix", lean="fullMatrix", callkey="Band::full_matrix", self="Band", self_mut=True,
              header="fn full_matrix(&mut self)", params=[], theorem="RbV.Thm.GenSrcBand.fullMatrix_eq_model"),
         dict(name="Band::num_cells", lean="numCells", callkey="Band::num_cells", self="Band",
